@@ -12,10 +12,16 @@ The four claims of the property and where they are proved of the model, for *all
   (1) content     `content_preserved` is FALSE as stated (three witness classes, `…_full_false_*`);
                   `content_preserved_partial` (exact side condition: no known loss applicable),
                   `content_loss_classified` (whatever is lost is one of the three known losses)
-  (2) nesting     `indent_tracks_braces`, `line_indent`
+  (2) nesting     in the property's literal reading - braces at the ends/starts of the buffer's LINES -
+                  `indent_tracks_buffer_lines` is FALSE (`…_full_false`: a line assembled from two fragments);
+                  `indent_tracks_buffer_lines_partial` (exact side condition: no buffer line is assembled from
+                  several fragment pieces); the code follows the per-fragment-line reading, for which
+                  `indent_tracks_braces` and `line_indent` hold on all histories
   (3) literal     `literal_transparent`, `literal_transparent_run`
   (4) balanced    `balanced_restores`
-  all monitors    `history_spec`, `history_spec_partial`
+  all monitors    `history_spec`, `history_spec_partial` (over `monitorAll`, which keeps judging content,
+                  literal and the deindent/set_indent API after an `append_src` off a line boundary:
+                  `content_after_stale_append`)
 -/
 namespace Witverif.Props.C25
 open Witverif.Text Witverif.Text.Source Witverif.Text.SourceSpec Witverif.Text.RustStr
@@ -59,6 +65,15 @@ theorem content_preserved_partial (ops : List Op) (st : Source) (hwf : WFOps ops
   have := content_global ops Source.empty Track.init [] (fun _ => rel_empty) (by decide) hwf hsafe hsync st hrun
   simpa using this
 
+/-- After an `append_src` that left the line state stale (the appended buffer ended mid-line, the
+target was at a line start: `continuing_line` is not taken over), whatever the next push changes is
+explained by `2·level` spaces written in front of it plus the three known losses; in every other
+state by the three known losses alone.  `stale` is the spec-side flag, `hls` what it guarantees. -/
+theorem content_after_stale_append (st : Source) (stale : Bool) (t : List Char) (interp : Bool)
+    (hls : st.continuingLine = false → stale = false → LineStart st.s) :
+    contentStepAt (stale && !st.continuingLine) st.indent st.s (pushStrImpl st t interp).s t interp ≠ .other :=
+  contentStepAt_model st stale t interp hls
+
 /-- Whatever a `push_str`/`push_str_literal` loses is one of the three known losses: the content
 monitor never answers `other`, from any state whose line bookkeeping is intact, for any fragment. -/
 theorem content_loss_classified (st : Source) (t : List Char) (interp : Bool)
@@ -68,6 +83,40 @@ theorem content_loss_classified (st : Source) (t : List Char) (interp : Bool)
   contentStep_model st t interp hls
 
 /-! ## (2) nesting -/
+
+/-- The full statement of claim (2) in the property's own words - "each line's indentation follows
+the nesting of braces that open at line ends and close at line starts outside line comments" - read
+over the lines of the buffer: after any history of `push_str` calls that ends at a line boundary,
+the indentation level is `bufferLevel` of the buffer (+1 per buffer line ending in `{`, −1 per buffer
+line starting with `}`, outside `//` comment lines).
+
+    theorem indent_tracks_buffer_lines : FullNesting      -- FALSE of the current code, see below -/
+def FullNesting : Prop :=
+  ∀ (ops : List Op) (st : Source), (∀ op ∈ ops, ∃ t, op = .pushStr t) → run Source.empty ops = some st →
+    st.continuingLine = false → (st.indent : Int) = bufferLevel st.s
+
+/-- `push_str("if x {"); push_str(" y }\n")` leaves level 1 (a following `z` is indented) although
+the only buffer line, `if x { y }`, does not end in `{`: the code interprets braces per fragment line. -/
+theorem indent_tracks_buffer_lines_full_false : ¬ FullNesting := by
+  intro h
+  have := h [.pushStr "if x {".toList, .pushStr " y }\n".toList] _ (by simp) rfl (by decide)
+  revert this; decide
+
+/-- Claim (2) in the whole-line reading with the exact extra hypothesis: for histories of `push_str` /
+`indent` / `deindent` in which no buffer line is assembled from more than one fragment piece
+(`split = false`: every non-empty fragment arrives at a line start) and no closing line arrives at
+level 0, whenever the buffer ends at a line boundary the level is the explicit indents plus the
+nesting of the buffer's own lines. -/
+theorem indent_tracks_buffer_lines_partial (ops : List Op) (st : Source) (hwf : WFOps ops)
+    (hrun : run Source.empty ops = some st)
+    (hview : (auxOps Track.init {} ops).lineView = true) (hsplit : (auxOps Track.init {} ops).split = false)
+    (hsync : (trackOps Track.init ops).sync = true) (hok : (trackOps Track.init ops).levelOk = true)
+    (hmid : (trackOps Track.init ops).midLine = false) :
+    (st.indent : Int) = (auxOps Track.init {} ops).explicit + bufferLevel st.s := by
+  have hr := rel_run ops Source.empty Track.init (fun _ => rel_empty) hwf st hrun hsync
+  have ha := ainv_run ops Source.empty Track.init {} ainv_empty (fun _ => rel_empty) hwf st hrun
+  rw [← hr.lvl hok]
+  exact ha.buf hsync hview hsplit hok hmid
 
 /-- The indentation level after any history is the spec-side level: explicit `indent`/`deindent`/
 `set_indent` amounts plus one per opening fragment line minus one per closing fragment line,
@@ -111,17 +160,21 @@ theorem balanced_restores (st : Source) (t : List Char) (hc : st.inLineComment =
 
 /-! ## all monitors, all histories -/
 
-/-- Full statement over histories: every verdict of the C25 monitors (content up to the three
-known losses, level, line indentation, literal, balanced, `deindent`/`set_indent` API) on every
-observed history of the model is good.  No bound on history length, fragment size or alphabet. -/
+/-- Full statement over histories: every verdict of the complete C25 monitor `monitorAll` (content
+up to the known losses, level, line indentation, whole-buffer-line level up to the known split-line
+class, literal, balanced, `deindent`/`set_indent` API; after an `append_src` off a line boundary still
+content, literal and API) on every observed history of the model is good.  No bound on history length,
+fragment size or alphabet. -/
 theorem history_spec (ops : List Op) (hwf : WFOps ops) :
-    ∀ v ∈ monitor Track.init { indent := 0, s := [] } (observe Source.empty ops), v.goodModuloKnown = true :=
-  (monitor_model ops Source.empty Track.init _ ⟨rfl, rfl⟩ (fun _ => rel_empty) hwf).1
+    ∀ v ∈ monitorAll Track.init {} obs0 (observe Source.empty ops), v.goodModuloKnown = true :=
+  monitorAll_model ops Source.empty Track.init {} obs0 ⟨rfl, rfl⟩ ainv_empty (fun _ => rel_empty) hwf
 
-/-- … and with exact content when no known loss is applicable at any step. -/
-theorem history_spec_partial (ops : List Op) (hwf : WFOps ops) (hsafe : SafeFrom Source.empty ops) :
-    ∀ v ∈ monitor Track.init { indent := 0, s := [] } (observe Source.empty ops), v.good = true :=
-  (monitor_model ops Source.empty Track.init _ ⟨rfl, rfl⟩ (fun _ => rel_empty) hwf).2 hsafe
+/-- … and with exact content when no known loss is applicable at any step and every `append_src`
+happens on line boundaries. -/
+theorem history_spec_partial (ops : List Op) (hwf : WFOps ops) (hsafe : SafeFrom Source.empty ops)
+    (hsync : (trackOps Track.init ops).sync = true) :
+    ∀ v ∈ monitorAll Track.init {} obs0 (observe Source.empty ops), v.base.good = true :=
+  monitorAll_model_partial ops Source.empty Track.init {} obs0 ⟨rfl, rfl⟩ (fun _ => rel_empty) hwf hsafe hsync
 
 /-! ## non-vacuity -/
 
@@ -154,6 +207,22 @@ example : contentStep "x".toList "x".toList "y".toList true = .other := by decid
 example : Balanced "if (x) {\n// {\n} else {\ny\n}\n".toList = true := by decide
 example : (Source.empty.pushStr "if (x) {\n// {\n} else {\ny\n}\n".toList).indent = 0 := by decide
 example : ((Source.empty.addIndent 1).pushStrLiteral "}\n{".toList).s = "  }\n  {".toList := by decide
+
+/-- the whole-buffer-line monitor: agrees on a line-aligned history, classifies the split-line witness,
+rejects a level that neither reading explains -/
+example :
+    (monitorAll Track.init {} obs0 (observe Source.empty [.pushStr "if x {\n".toList, .pushStr "y\n".toList])).map (·.bufferLine)
+      = [.ok, .ok] := by decide
+example :
+    (monitorAll Track.init {} obs0 (observe Source.empty [.pushStr "if x {".toList, .pushStr " y }\n".toList])).map (·.bufferLine)
+      = [.na, .knownSplit] := by decide
+example : bufferLineStep Track.init {} { indent := 1, s := "x\n".toList } = .other := by decide
+
+/-- stale line state after `append_src`: `indent(1); append_src("x"); push_str("y\n")` gives `x  y\n` -/
+example :
+    (monitorAll Track.init {} obs0 (observe Source.empty
+      [.indent 1, .appendSrc (Source.empty.pushStr "x".toList), .pushStr "y\n".toList])).map (·.base.content)
+      = [.ok, .ok, .stale Loss.none] := by decide
 
 /-- literal text vs. its neutralised variant -/
 example : AllPairs OpRel [.indent 1, .pushLit "{ a\n".toList, .pushStr "b\n".toList]
